@@ -275,6 +275,23 @@ EXTRA7 = {
 }
 for k, v in EXTRA7.items():
     claimed[k]["text"] += v
+EXTRA8 = {
+ "C02": " Every field of the node schema populated on its own, and all fields CycloneDX cannot express together, while the expressible attributes stay empty.",
+ "C03": " Every one- and two-element set of hash algorithm numbers (declared and one undeclared), and all at once, under every explored map order.",
+ "C04": " Every member holding a value of one of the closed value sets of the SPDX and CycloneDX libraries (const blocks read from their sources at build time: checksum algorithms, relationship types, component and reference types) takes every other value of that set. Children limit themselves by processor time, not wall time.",
+ "C06": " Streams that deliver their last bytes together with io.EOF.",
+ "C07": " Every string-valued place of a fully populated document x a menu of contents general-purpose parsers reject (URL, date, number, e-mail, UUID, purl, CPE, path, template) and the structural tokens of the sources x 8 formats.",
+ "C09": " Operands with spare capacity in every slice; the result held while the receiver is used in another call, edited by its owner, and computed again.",
+ "C10": " As C09: spare capacity; the result edited by its owner and computed again.",
+ "C11": " Operands with a document type entry per declared and one undeclared type number, in both orders.",
+ "C12": " Ill-formed operands (a node without identifier; one identifier on two node objects).",
+ "C15": " Every arrangement of node sequences in which an identifier is carried by two or three node objects, judged as identifier sets.",
+ "C17": " The file entry points (WriteFile to names differing in the extension only / the stem only, ParseFile, SniffFile) each with each and with stream calls: whole calls with <=2 preemptions, code points inside with <=1.",
+ "C18": " A constructor given a format nobody registered (expected value stated, writes must fail).",
+ "C20": " Overwrites of entries that carry other permission bits (0600, 0664, 0444, 0755).",
+}
+for k, v in EXTRA8.items():
+    claimed[k]["text"] += v
 
 checks = []
 for pid in all_ids:
